@@ -42,7 +42,7 @@ if __name__ == "__main__":
     dirs = sorted(glob.glob("/verif/seeded/*/"))
     if ids:
         dirs = [d for d in dirs if os.path.basename(d.rstrip("/")) in ids]
-    with ThreadPoolExecutor(max_workers=4) as ex:
+    with ThreadPoolExecutor(max_workers=int(os.environ.get("REVAL_WORKERS", "8"))) as ex:
         for r in ex.map(one, dirs):
             print(json.dumps({k: r.get(k) for k in ("id", "still_valid", "detected", "demo_clean_rc", "demo_patched_rc", "patch_applies")}))
             sys.stdout.flush()
